@@ -1,0 +1,19 @@
+//go:build verif
+// +build verif
+
+package lql
+
+import "time"
+
+// VC20LqlFormats returns the format list of dateTimeParser in first-match order
+func VC20LqlFormats() []string {
+	fs := dateTimeParser.VC20Formats()
+	res := make([]string, len(fs))
+	for i, f := range fs {
+		res[i] = f.VC20Format()
+	}
+	return res
+}
+
+// VC20ParseDateTime is parseLqlDateTime
+func VC20ParseDateTime(s string) (time.Time, error) { return parseLqlDateTime(s) }
